@@ -1,5 +1,7 @@
 import IstioModel.Common.Wire
 import IstioModel.C01.Model
+import IstioModel.C01.Narrow
+import IstioModel.C01.Connection
 
 /-! Line-protocol driver for C01, stream `needs` (see harness/c01/needs.go for the grammar). -/
 namespace IstioModel.C01
@@ -114,11 +116,27 @@ def showReqSorted (r : Req) : String :=
     | none => s!"a/{x.net}/{x.addr}"
   s!"{boolTok r.forced}|{showSet (r.reasons.map Reason.tok)}|{showKeys r.keys}|{showSet (r.wrefs.map w)}"
 
+def parseRules (t : String) : List (Nat × Nat) :=
+  (lst t ";").filterMap fun x => match x.splitOn "." with
+    | [a, b] => some (num a, num b)
+    | _ => none
+
+def parseFacts (t : String) : ClusterFacts :=
+  match t.splitOn ":" with
+  | [h, s, c, p] => { host := num h, svcNs := if s == "-" then none else some (num s), cur := parseRules c, prev := parseRules p }
+  | _ => default
+
 structure DState where
   proxy : Proxy := {}
 
 def stepD (d : DState) (toks : List String) : DState × String :=
   match toks with
+  | ["case", _, "edsnarrow", px, _, _, _] =>
+    ({ proxy := { ty := if px == "router" then .router else .sidecar } }, "ok")
+  | ["narrow", f, ks, facts] =>
+    let r : Req := { keys := (lst ks ",").map parseKey, reasons := [.config], forced := tokBool f }
+    let bits := edsResponse root r d.proxy ((lst facts ",").map parseFacts)
+    (d, if bits.isEmpty then "-" else String.join (bits.map boolTok))
   | "case" :: _ => ({ proxy := {} }, "ok")
   | "proxy" :: rest => ({ proxy := parseProxy rest }, "ok")
   | "req" :: rest => (d, showDecisions d.proxy (parseReq rest))
@@ -126,6 +144,16 @@ def stepD (d : DState) (toks : List String) : DState × String :=
   | ["order", ts] =>
     let o := watchedByOrder (lst ts ",")
     (d, s!"{if o.1.isEmpty then "-" else ",".intercalate o.1} {showSet o.2}")
+  | ["conn", ws, _, fr, f, rs, ks, wr] =>
+    let r := parseReq [f, rs, ks, wr]
+    let fresh := parseScope fr
+    let res := pushConnectionSends root fresh (lst ws ",") r d.proxy
+    let known := res.1.1
+    let sent := res.2.1
+    let sentKnown := sent.filter known.contains
+    let sentOther := sent.filter (fun t => !known.contains t)
+    let j (l : List String) : String := if l.isEmpty then "-" else ",".intercalate l
+    (d, s!"called={j known}+{showSet res.1.2} sent={j sentKnown}+{showSet sentOther} keys={if known.isEmpty && res.1.2.isEmpty then "-" else showKeys res.2.2}")
   | ["merge", f1, r1, k1, w1, f2, r2, k2, w2] =>
     let m := (parseReq [f1, r1, k1, w1]).merge (parseReq [f2, r2, k2, w2])
     (d, s!"merged={showReqSorted m} {showDecisions d.proxy m}")
